@@ -1365,6 +1365,25 @@ struct StreamSim : Sim {
                         update_call(q + (1ull << 32) + y, n - (q + (1ull << 32) + y));
                 fin_call(tag);
                 Pass dd = finish(tag);
+                // (e) update calls that start a few blocks below each multiple of 2^16 blocks (the 16-bit carry of the block counter) for the
+                // first 40 MiB, then the rest: call m starts at block 65536*m - j_m, j_m cycling through 0..28
+                scrub();
+                init_call();
+                {
+                        uint64_t pos = 0;
+                        for (uint64_t m = 1; m <= 40 && pos < n; m++) {
+                                uint64_t j = (m * 5 + (uint64_t) (p.get("c0_phase") % 29)) % 29;
+                                uint64_t cut = 16 * (65536 * m - j) + ((m & 3) == 3 ? (uint64_t) (p.get("c0_hugelen") % 16) : 0);
+                                if (cut <= pos || cut >= n)
+                                        continue;
+                                update_call(pos, cut - pos);
+                                pos = cut;
+                        }
+                        if (pos < n)
+                                update_call(pos, n - pos);
+                }
+                fin_call(tag);
+                Pass ee = finish(tag);
                 e.obs_bytes(0x6a0 + ci, b.tag.data(), b.tag.size());
                 e.obs(0x6b0 + ci, b.outh);
                 if (a.tag != b.tag || a.outh != b.outh)
@@ -1382,6 +1401,12 @@ struct StreamSim : Sim {
                                     strfmt("%s: update(%llu) + update(2^32 + %llu) + rest disagrees with the same %llu-byte message streamed in pieces below 2^32 bytes (tag %s vs %s, output %s)",
                                            site.c_str(), (unsigned long long) q, (unsigned long long) y, (unsigned long long) n, hex(dd.tag.data(), dd.tag.size()).c_str(),
                                            hex(b.tag.data(), b.tag.size()).c_str(), dd.outh == b.outh ? "equal" : "differs"));
+                if (ee.tag != b.tag || ee.outh != b.outh)
+                        e.violation("C07", "huge-cuts-at-2^16-blocks", "C07/huge-cuts-at-2^16-blocks/" + site,
+                                    strfmt("%s: the %llu-byte message cut a few blocks below each multiple of 2^16 blocks disagrees with the same message streamed in pieces below 2^32 bytes "
+                                           "(tag %s vs %s, output %s)",
+                                           site.c_str(), (unsigned long long) n, hex(ee.tag.data(), ee.tag.size()).c_str(), hex(b.tag.data(), b.tag.size()).c_str(),
+                                           ee.outh == b.outh ? "equal" : "differs"));
                 e.check_buf(tag, "gcm huge");
                 e.check_buf(c.ctx, "gcm huge");
                 e.check_buf(c.key_data, "gcm huge");
